@@ -37,6 +37,15 @@ def part(chk, tier, label, n_quick=500, n_thorough=8000, seed=11):
     texts = [(t, None) for t in HARD]
     for k in range(n):
         ast = gen.rand_list(rng, depth=rng.choice([0, 1, 2, 2, 3]))
+        for cx in ast:          # constructs of the Ir grammar that the core generator leaves out: namespaces, the type attribute, &, :hover, odd names
+            for comp in cx['cs']:
+                if rng.random() < 0.3:
+                    ex = gen.rand_extra(rng)
+                    while ex['k'] not in ('attr', 'none', 'amp', 'class', 'id'):
+                        ex = gen.rand_extra(rng)
+                    comp.append(ex)
+                if rng.random() < 0.15 and comp and comp[0]['k'] == 'type':
+                    comp[0]['ns'] = rng.choice([{'t': 'any'}, {'t': 'none'}, {'t': 'pfx', 'p': common.cps('ns')}])
         selmod.SPELL = None
         canon = selmod.selector_list(ast)
         selmod.SPELL = random.Random(rng.getrandbits(32))
